@@ -12,6 +12,8 @@ pub struct Session {
     ctx: TransactionContext,
     logger: TransactionLogger,
     task_runner: SharedTaskRunner,
+    /// The transaction has been committed or aborted: dropping the session must not end it again.
+    finished: bool,
 }
 
 impl Session {
@@ -24,6 +26,7 @@ impl Session {
             ctx,
             logger,
             task_runner,
+            finished: false,
         }
     }
 
@@ -31,6 +34,7 @@ impl Session {
         self.logger.log_commit()?;
         self.ctx.commit_transaction()?;
         self.logger.log_end()?;
+        self.finished = true;
         Ok(())
     }
 
@@ -38,6 +42,7 @@ impl Session {
         self.logger.log_abort()?;
         self.ctx.abort_transaction()?;
         self.logger.log_end()?;
+        self.finished = true;
         Ok(())
     }
 
@@ -68,6 +73,8 @@ unsafe impl Sync for Session {}
 
 impl Drop for Session {
     fn drop(&mut self) {
-        let _ = self.abort_transaction();
+        if !self.finished {
+            let _ = self.abort_transaction();
+        }
     }
 }
